@@ -1,7 +1,9 @@
 import Hifi.Lemmas.EpochOrd
+import Hifi.Lemmas.ViewsFloat
 /-
   C20  GNSS week / time-of-week, nanosecond counters (integer parts).
-  Day-of-year (floating point) is covered by the correspondence run of the calendar properties.
+  Day-of-year (floating point): theorems on the SoftF64 model at the end of this file (the exact
+  integer `duration_in_year` is the business of C09; the driver runs `doy` lines with the hardware Float).
 -/
 namespace Hifi.C20
 open Hifi Hifi.Spec
@@ -105,5 +107,32 @@ theorem ns_counter_never_wrong (e : Ep) (ts : TS) (x : Ep) (hx : e.to ts = some 
 
 -- non-vacuity: GPS week 2238, 3 days in
 example : toTimeOfWeek (fromTimeOfWeek 2238 259200000000000) = (2238, 259200000000000) := by decide +kernel
+
+/-! ### `day_of_year` = `duration_in_year().to_unit(Unit::Day) + 1.0` on SoftF64 -/
+open Hifi.F64 Hifi.ViewsF Hifi.DurFloat in
+/-- day of year is 1-based: exactly 1.0 at the first nanosecond of the year -/
+theorem day_of_year_starts_at_one : dayOfYear ⟨0, 0⟩ = one ∧ toRat one = 1 := by
+  exact ⟨cDay_facts.2.2.2.2.1, cDay_facts.2.2.2.2.2.2.2.1⟩
+
+open Hifi.F64 Hifi.ViewsF Hifi.DurFloat in
+/-- for every duration into the year d (0 ≤ d < 366 days): finite, between 1 and 367, and within
+    10·2^-53 (relative, i.e. five ulp) of the exact d/day + 1 -/
+theorem day_of_year_accuracy (d : Dur) (hd : d.Canon) (h0 : 0 ≤ d.val) (h1 : d.val ≤ 366 * 86400000000000 - 1) :
+    (dayOfYear d).isFinite = true ∧ 1 ≤ toRat (dayOfYear d) ∧ toRat (dayOfYear d) ≤ 367 ∧
+    closeTo 10 (toRat (dayOfYear d)) ((d.val : Rat) / 86400000000000 + 1) 1 = true :=
+  dayOfYear_spec d hd h0 h1
+
+open Hifi.F64 Hifi.ViewsF Hifi.DurFloat in
+/-- non-decreasing within the year -/
+theorem day_of_year_monotone (d1 d2 : Dur) (h1 : d1.Canon) (h2 : d2.Canon) (h : d1.val ≤ d2.val) :
+    F64.le (dayOfYear d1) (dayOfYear d2) = true := dayOfYear_mono d1 d2 h1 h2 h
+
+open Hifi.F64 Hifi.ViewsF Hifi.DurFloat in
+/-- the upper end is attained by rounding: in the last nanosecond of a leap (common) year the double
+    nearest to 366.99999999999999 (365.99…) is 367.0 (366.0) — float precision, not a day count error -/
+theorem day_of_year_last_nanosecond :
+    dayOfYear ⟨0, 366 * 86400000000000 - 1⟩ = F64.ofInt 367 ∧
+    dayOfYear ⟨0, 365 * 86400000000000 - 1⟩ = F64.ofInt 366 :=
+  ⟨cDay_facts.2.2.2.2.2.1, cDay_facts.2.2.2.2.2.2.1⟩
 
 end Hifi.C20
